@@ -8,6 +8,7 @@ import warnings
 from fractions import Fraction
 
 import numpy as np
+import common
 from common import xr, xvec, from_xr, from_xvec, num_close, tokens_close
 
 ID = "C15"
@@ -379,14 +380,16 @@ def impl(op):
         if k == "agg":
             g = _get(a[1])
             v = np.array(from_xvec(a[2]), float)
+            guard = common.Unchanged(v)
             r = _call(lambda: g(v))
-            return r if isinstance(r, str) else xr(r)
+            return guard.tag(r if isinstance(r, str) else xr(r))
         if k == "aggaxis":
             g = _get(a[1])
             dims = [int(x) for x in a[3].split(",")]
             arr = np.array(from_xvec(a[4]), float).reshape(dims)
+            guard = common.Unchanged(arr)
             r = _call(lambda: g(arr, axis=int(a[2])))
-            return r if isinstance(r, str) else _show_arr(r)
+            return guard.tag(r if isinstance(r, str) else _show_arr(r))
         if k in ("preagg", "preaggarr"):
             g = _get(a[2])
             h = from_xr(a[3])
@@ -546,6 +549,8 @@ def _spec_agrees(spec_tok, acc):
 def judge(op, impl_out, spec_out):
     a = op.split(" ")
     k = a[0]
+    if common.mutated_verdict(op, impl_out):
+        return common.mutated_verdict(op, impl_out)
     if (impl_out.startswith("EXC:") or impl_out.startswith("EXIT:")) and k != "aggget":
         return ({"kind": "exception", "op": k}, "%s ended in %s" % (op[:200], impl_out))
     if k == "aggget":
